@@ -187,7 +187,7 @@ pub fn run(cx: &mut Ctx) {
             });
         }
     }
-    let n = cx.a.n(150_000, 1_500_000);
+    let n = cx.a.n(300_000, 2_000_000);
     let quick = cx.a.quick();
     for _ in 0..n {
         cx.case("random", |c| {
